@@ -118,6 +118,45 @@ def _if_chain(node: ast.If) -> Tuple[List[Tuple[ast.expr, List[ast.stmt]]], Opti
         return arms, (cur.orelse or None)
 
 
+def _mode_table_form(mod: ast.Module, stmts: List[ast.stmt], ext_var: str):
+    """`if <ext> not in TABLE: raise Cls(…)` ; `return TABLE[<ext>]` -> ([( [key], archiver, mode ), …], 'Cls'), or
+    None if the two statements do not have that shape"""
+    guard, ret = stmts
+    if not (isinstance(guard, ast.If) and not guard.orelse and isinstance(guard.test, ast.Compare) and
+            len(guard.test.ops) == 1 and isinstance(guard.test.ops[0], ast.NotIn) and
+            isinstance(guard.test.left, ast.Name) and guard.test.left.id == ext_var and
+            isinstance(guard.test.comparators[0], ast.Name)):
+        return None
+    table = guard.test.comparators[0].id
+    if not (isinstance(ret, ast.Return) and isinstance(ret.value, ast.Subscript) and
+            isinstance(ret.value.value, ast.Name) and ret.value.value.id == table and
+            isinstance(ret.value.slice, ast.Name) and ret.value.slice.id == ext_var):
+        return None
+    defs = [n for n in mod.body if isinstance(n, ast.Assign) and len(n.targets) == 1 and
+            isinstance(n.targets[0], ast.Name) and n.targets[0].id == table]
+    if len(defs) != 1 or not isinstance(defs[0].value, ast.Dict):
+        _fail(guard, f'expected exactly one module-level dict literal {table}')
+    # nothing else in the module may touch the table (rebind it, or mutate it through a method / subscript store)
+    for n in ast.walk(mod):
+        if isinstance(n, ast.Name) and n.id == table and isinstance(n.ctx, (ast.Store, ast.Del)) and n is not defs[0].targets[0]:
+            _fail(n, f'{table} is rebound')
+        if isinstance(n, ast.Attribute) and isinstance(n.value, ast.Name) and n.value.id == table:
+            _fail(n, f'a method of {table} is used')
+        if isinstance(n, ast.Subscript) and isinstance(n.value, ast.Name) and n.value.id == table and \
+                isinstance(n.ctx, (ast.Store, ast.Del)):
+            _fail(n, f'{table} is written to')
+    d = defs[0].value
+    keys = [_str(k) for k in d.keys]
+    if len(set(keys)) != len(keys):
+        _fail(d, f'duplicate key in {table}')
+    chain = []
+    for k, v in zip(keys, d.values):
+        if not (isinstance(v, ast.Tuple) and len(v.elts) == 2):
+            _fail(v, 'expected `(<archiver>, <mode>)`')
+        chain.append(([k], _str(v.elts[0]), _str(v.elts[1])))
+    return chain, _raise_class(guard.body)
+
+
 def _raise_class(stmts: List[ast.stmt]) -> str:
     """`raise Cls(...)` as the only statement -> 'Cls'"""
     if len(stmts) == 1 and isinstance(stmts[0], ast.Raise) and stmts[0].exc is not None and stmts[0].cause is None:
@@ -220,9 +259,9 @@ def extract_c12() -> Dict[str, Any]:
     # get_archiver_mode -----------------------------------------------------------------
     fn = _func(mod, 'get_archiver_mode')
     body = _body(fn)
-    if len(body) != 2 or len(fn.args.args) != 1:
+    if len(body) not in (2, 3) or len(fn.args.args) != 1:
         _fail(fn, 'get_archiver_mode: expected one parameter and two statements (parse_archived_filename; if-chain)')
-    a0, chain = body
+    a0, chain = body[0], body[1]
     arg = fn.args.args[0].arg
     if not (isinstance(a0, ast.Assign) and len(a0.targets) == 1 and isinstance(a0.targets[0], ast.Tuple) and
             len(a0.targets[0].elts) == 3 and isinstance(a0.value, ast.Call) and
@@ -230,11 +269,23 @@ def extract_c12() -> Dict[str, Any]:
             not a0.value.keywords and _name(a0.value.args[0]) == arg):
         _fail(a0, f'expected `_, _, <ext> = parse_archived_filename({arg})`')
     ext_var = _name(a0.targets[0].elts[2])
-    if not isinstance(chain, ast.If):
-        _fail(chain, 'expected an if/elif chain')
-    arms, orelse = _if_chain(chain)
-    if orelse is None:
-        _fail(chain, 'the if/elif chain of get_archiver_mode has no else branch')
+    table_form = _mode_table_form(mod, body[1:], ext_var) if len(body) == 3 else None
+    if table_form is not None:
+        # second known shape: `if <ext> not in TABLE: raise <Cls>(…)` / `return TABLE[<ext>]` with a module-level
+        # dict literal TABLE = {<str>: (<str>, <str>), …} — the same function written as a lookup; one arm per key,
+        # in the order of the literal (the keys of a dict literal are distinct, so arm order cannot matter)
+        arms, orelse = [], None
+        mode_chain_pre, mode_else_pre = table_form
+    else:
+        if len(body) != 2:
+            _fail(fn, 'get_archiver_mode: expected two statements (parse_archived_filename; if-chain) or the '
+                      'lookup-table form')
+        mode_chain_pre = mode_else_pre = None
+        if not isinstance(chain, ast.If):
+            _fail(chain, 'expected an if/elif chain')
+        arms, orelse = _if_chain(chain)
+        if orelse is None:
+            _fail(chain, 'the if/elif chain of get_archiver_mode has no else branch')
     mode_chain = []
     for test, b in arms:
         if not (isinstance(test, ast.Compare) and len(test.ops) == 1 and _name(test.left) == ext_var):
@@ -249,7 +300,10 @@ def extract_c12() -> Dict[str, Any]:
                 len(b[0].value.elts) == 2):
             _fail(b[0], 'expected `return <archiver>, <mode>`')
         mode_chain.append((exts, _str(b[0].value.elts[0]), _str(b[0].value.elts[1])))
-    mode_else = _raise_class(orelse)
+    if mode_chain_pre is not None:
+        mode_chain, mode_else = mode_chain_pre, mode_else_pre
+    else:
+        mode_else = _raise_class(orelse)
 
     # get_archive_functions ---------------------------------------------------------------
     fn = _func(mod, 'get_archive_functions')
